@@ -19,14 +19,22 @@ type verifReq struct {
 	req     InFlightRequest
 	id      int16
 	pending []*frame.Frame // frames delivered and not yet taken from the channel by the harness
+	dead    bool           // closed with an error by page overflow while its response is still streaming
+	managed bool
 }
 
+// response frames are built for DSE v2 or for OSS v4: whether a page is the last one is a property of the message
+// (RowsMetadata), not of the version the connection negotiated
 func verifResponse(id int16, lastPage bool, paged bool) *frame.Frame {
 	var msg message.Message = &message.VoidResult{}
+	v := primitive.ProtocolVersionDse2
 	if paged {
 		msg = &message.RowsResult{Metadata: &message.RowsMetadata{ColumnCount: 1, ContinuousPageNumber: 1, LastContinuousPage: lastPage}}
+		if nd.Choice("response version", 2) == 1 {
+			v = primitive.ProtocolVersion4
+		}
 	}
-	return frame.NewFrame(primitive.ProtocolVersionDse2, id, msg)
+	return frame.NewFrame(v, id, msg)
 }
 
 func verifIndexOf(out []*verifReq, id int16) int {
@@ -151,6 +159,153 @@ func verifInFlightHistory(n int, depth int, explicit bool) {
 		}
 	}
 }
+
+// verifInFlightHistory2 extends the histories above:
+//   mode 0: managed ids, 1: caller-chosen ids, 2: mixed (every send chooses; only uniqueness, bounds and refusal at N
+//   are asserted there - the property states conservation for automatic assignment only);
+//   overflow: a further operation delivers non-final pages WITHOUT the consumer draining the channel, so a request can
+//   be closed by page overflow while its response is still streaming; its stream id must stay reserved (no other
+//   request may receive the late pages) until the last page has arrived.
+func verifInFlightHistory2(n int, depth int, mode int, overflow bool) {
+	h := newInFlightRequestsHandler("verif", context.Background(), n, verifMaxPending, time.Second)
+	var out []*verifReq
+	closed := false
+	anyDead := false
+	for step := 0; step < depth; step++ {
+		nops := 5
+		if overflow {
+			nops = 6
+		}
+		op := nd.Choice("op", nops)
+		switch op {
+		case 0: // send
+			managed := mode == 0 || (mode == 2 && nd.Choice("managed", 2) == 0)
+			id := int16(ManagedStreamId)
+			if !managed {
+				id = int16(1 + nd.Choice("explicit id", n+1))
+			}
+			f := frame.NewFrame(primitive.ProtocolVersion4, id, &message.Options{})
+			r, err := h.onOutgoingFrameEnqueued(f)
+			if closed {
+				nd.Assert(err != nil, "send after close is refused")
+				break
+			}
+			if err != nil {
+				nd.Assert(r == nil, "a refused send returns no request")
+				if mode != 2 && len(out) < n && (managed || verifIndexOf(out, id) < 0) {
+					nd.Assert(false, "a send is accepted while fewer than N requests are unanswered")
+				}
+				break
+			}
+			nd.Assert(len(out) < n, "with N unanswered requests a further send is refused with an error")
+			got := f.Header.StreamId
+			nd.Assert(r.StreamId() == got, "the request carries the id written to the frame")
+			if managed {
+				nd.Assert(got >= 1, "assigned stream id is at least 1")
+				nd.Assert(int(got) <= n, "assigned stream id is at most N")
+			} else {
+				nd.Assert(got == id, "a caller-chosen id is kept")
+			}
+			nd.Assert(verifIndexOf(out, got) < 0, "no other unanswered request carries the same stream id")
+			out = append(out, &verifReq{req: r, id: got, managed: managed})
+		case 1, 2, 5: // final response (1), non-final page with the consumer keeping up (2), non-final page unread (5)
+			if len(out) == 0 {
+				nd.Assume(false)
+			}
+			i := nd.Choice("which request", len(out))
+			r := out[i]
+			final := op == 1
+			if !r.dead {
+				if op == 2 && len(r.pending) >= verifMaxPending-1 {
+					verifDrain(r, "drain")
+				}
+				if op == 1 && len(r.pending) >= verifMaxPending {
+					verifDrain(r, "drain")
+				}
+			}
+			g := verifResponse(r.id, final, !final || nd.Choice("final is a last page", 2) == 1)
+			err := h.onIncomingFrameReceived(g)
+			if closed {
+				nd.Assert(err != nil, "delivery after close is refused")
+				break
+			}
+			switch {
+			case r.dead:
+				// late pages of a response whose request was closed: nobody receives them
+				if final {
+					out = append(out[:i:i], out[i+1:]...)
+				}
+			case op == 5 && len(r.pending) >= verifMaxPending:
+				nd.Assert(err != nil, "a page beyond MaxPending unread pages is reported")
+				nd.Assert(r.req.IsDone(), "page overflow completes the request")
+				nd.Assert(r.req.Err() != nil, "a request closed by page overflow carries an error")
+				verifDrain(r, "after overflow")
+				_, ok := <-r.req.Incoming()
+				nd.Assert(!ok, "page overflow closes the request's channel")
+				r.dead = true
+				anyDead = true
+			default:
+				nd.Assert(err == nil, "a response for an unanswered request is delivered")
+				r.pending = append(r.pending, g)
+				if final {
+					verifDrain(r, "final response")
+					_, ok := <-r.req.Incoming()
+					nd.Assert(!ok, "the channel is closed after the final response")
+					nd.Assert(r.req.IsDone(), "the request is completed by its final response")
+					nd.Assert(r.req.Err() == nil, "a normally completed request carries no error")
+					out = append(out[:i:i], out[i+1:]...)
+				} else {
+					nd.Assert(!r.req.IsDone(), "a non-final page keeps the request open")
+				}
+			}
+			verifCheckChannels2(out, "after delivery")
+		case 3: // response for an unknown stream id
+			id := int16(1 + nd.Choice("unknown id", n+1))
+			if verifIndexOf(out, id) >= 0 {
+				nd.Assume(false)
+			}
+			err := h.onIncomingFrameReceived(verifResponse(id, true, false))
+			nd.Assert(err != nil, "a response for an unknown stream id is reported")
+			verifCheckChannels2(out, "after unknown response")
+		case 4: // close
+			h.close()
+			closed = true
+			for _, r := range out {
+				if !r.dead {
+					verifDrain(r, "after close")
+				}
+				_, ok := <-r.req.Incoming()
+				nd.Assert(!ok, "close closes the channel of every pending request")
+				nd.Assert(r.req.IsDone(), "close completes every pending request")
+				nd.Assert(r.req.Err() != nil, "a request completed by close carries an error")
+			}
+			out = nil
+		}
+		if !closed && mode == 0 {
+			nd.Assert(len(h.streamIds)+len(out) == n, "ids in the pool plus ids of unanswered requests are exactly N (an answered request's id is assignable again)")
+		}
+		if !closed && !anyDead {
+			nd.Assert(len(h.inFlight) == len(out), "exactly the unanswered requests are registered")
+		}
+	}
+}
+
+// live requests hold exactly the frames delivered to them; a request closed by overflow receives nothing further
+func verifCheckChannels2(out []*verifReq, where string) {
+	for _, r := range out {
+		if r.dead {
+			continue
+		}
+		nd.Assert(len(r.req.Incoming()) == len(r.pending), where+": a request's channel holds exactly the frames delivered for its stream id")
+	}
+}
+
+func VerifC09_Mixed_N2() { verifInFlightHistory2(2, verifDepth(), 2, false) }
+func VerifC09_Mixed_N3() { verifInFlightHistory2(3, verifDepth(), 2, false) }
+func VerifC09_Overflow_N1() { verifInFlightHistory2(1, verifDepth()+1, 0, true) }
+func VerifC10_Overflow_N1() { verifInFlightHistory2(1, verifDepth()+1, 0, true) }
+func VerifC10_Overflow_N2() { verifInFlightHistory2(2, verifDepth()+1, 0, true) }
+func VerifC10_Mixed_N2()    { verifInFlightHistory2(2, verifDepth(), 2, false) }
 
 func verifDepth() int {
 	if verifThorough {
